@@ -45,6 +45,9 @@ class Prog:
         self.feature_text = ""
         self.raw_gdl = None
         self.gattr = None
+        self.features = None
+        self.languages = None
+        self.name_start = None
 
     # ---- GDL text -------------------------------------------------------
     def gdl(self):
@@ -120,7 +123,7 @@ class Prog:
             defs = [conv(self.class_trees.get(nm, {"k": "glyphs", "g": self.classes[nm]})) for nm in names]
             defs.append({"k": "glyphs", "g": list(range(n + 2))})
         return {"numGlyphs": n + 2, "numReal": n, "lb": n, "phantom": n + 1, "anyClass": any_id,
-                "gattr": self.gattr,
+                "gattr": self.gattr, "features": self.features, "languages": self.languages, "nameStart": self.name_start,
                 "classes": classes, "classDefs": defs, "classNames": names + ["ANY"], "passes": passes}
 
 
@@ -445,6 +448,97 @@ def gen_gattr_program(rng, same_line=False, with_defaults_case=True):
     prog.raw_gdl = "\n".join(lines) + "\n"
     prog.gattr = {"marker": 2, "markerBase": 1000, "numAttrs": nattr, "spaceGlyphs": [1], "assigns": assigns}
     prog.class_defs = {nm: glyph_list_text(prog.classes[nm]) for nm in names}
+    return prog
+
+
+def tag_u32(t):
+    if isinstance(t, int):
+        return t
+    b = t.encode("ascii") + b"\0" * (4 - len(t))
+    return int.from_bytes(b, "big")
+
+
+def gen_feature_program(rng):
+    """Family 'features' (C16): feature table (numeric and 4-char ids, hidden alternate ids, several label languages,
+    settings with a default, label-less features), language table, simple rules."""
+    prog = gen_match_program(rng, npasses=1, size="small")
+    WORDS = ["Alpha", "Beta", "Gamma", "Delta", "Epsilon", "Zeta", "Eta", "Theta", "Iota", "Kappa", "Lambda", "Mu", "Nu", "Xi"]
+    LANGS = [1033, 1036, 1031, 1049]
+    feats = []
+    text = ["table(feature)"]
+    used_ids = set([1])
+    nfeat = rng.randint(1, 6)
+    for k in range(nfeat):
+        name = "f%d" % k
+        while True:
+            fid = rng.choice([rng.randint(2, 60000), "".join(rng.choice("abcdefghijklmnopqrstuvwxyz") for _ in range(rng.choice([3, 4])))])
+            if tag_u32(fid) not in used_ids:
+                used_ids.add(tag_u32(fid))
+                break
+        body = ["id = %s;" % (fid if isinstance(fid, int) else '"%s"' % fid)]
+        ids = [tag_u32(fid)]
+        if rng.random() < 0.25:
+            while True:
+                alt = rng.randint(2, 60000)
+                if alt not in used_ids:
+                    used_ids.add(alt)
+                    break
+            body.append("id.hidden = %d;" % alt)
+            ids.append(alt)
+        labels = []
+        if rng.random() < 0.85:
+            for lang in rng.sample(LANGS, rng.randint(1, 3)) if rng.random() < 0.4 else [1033]:
+                lab = "%s %d-%d" % (rng.choice(WORDS), k, lang)
+                labels.append([lang, lab])
+                body.append('name.%d = string("%s");' % (lang, lab))
+        settings = []
+        dflt = None
+        if rng.random() < 0.8:
+            nset = rng.randint(1, 4)
+            vals = rng.sample(range(0, 12), nset)
+            sbody = []
+            for j, v in enumerate(vals):
+                slabels = []
+                inner = ["value = %d;" % v]
+                if rng.random() < 0.9:
+                    for lang in ([1033, 1036] if rng.random() < 0.25 else [1033]):
+                        lab = "%s s%d-%d-%d" % (rng.choice(WORDS), k, j, lang)
+                        slabels.append([lang, lab])
+                        inner.append('name.%d = string("%s");' % (lang, lab))
+                settings.append({"value": v, "labels": slabels})
+                sbody.append("s%d_%d { %s }" % (k, j, " ".join(inner)))
+            body.append("settings { %s }" % " ".join(sbody))
+            di = rng.randrange(nset)
+            body.append("default = s%d_%d;" % (k, di))
+            dflt = vals[di]
+        feats.append({"ids": ids, "labels": labels, "settings": settings, "default": dflt})
+        text.append("%s { %s }" % (name, " ".join(body)))
+    text.append("endtable;")
+    langs = []
+    with_settings = [(k, f) for k, f in enumerate(feats) if f["settings"]]
+    if with_settings and rng.random() < 0.7:
+        text.append("table(language)")
+        codes = rng.sample(["eng", "fra", "deu", "rus", "en", "vie", "tha"], rng.randint(1, 4))
+        ci = 0
+        for li in range(rng.randint(1, 2)):
+            take = codes[ci:ci + rng.randint(1, 2)]
+            ci += len(take)
+            if not take:
+                break
+            chosen = rng.sample(with_settings, rng.randint(1, min(3, len(with_settings))))
+            vals = []
+            lines = []
+            for k, f in chosen:
+                j = rng.randrange(len(f["settings"]))
+                lines.append("f%d = s%d_%d;" % (k, k, j))
+                vals.append([f["ids"][0], f["settings"][j]["value"]])
+            text.append("lng%d { languages = (%s); %s };" % (li, ", ".join('"%s"' % c for c in take), " ".join(lines)))
+            for c in take:
+                langs.append({"code": tag_u32(c), "values": vals})
+        text.append("endtable;")
+    prog.feature_text = "\n".join(text)
+    prog.features = feats
+    prog.languages = langs
     return prog
 
 
